@@ -5,7 +5,7 @@ package main
 // package with `go test -overlay` (nothing is written to /repo) and run.
 
 func (e *Engine) replayOnRealCode(dir, base string, g *oblGroup, pack *Pack) (reproduced bool, note string, testFile string) {
-	if pack.Replay == "" {
+	if len(pack.Replays) == 0 {
 		return false, "no replay template for this contract family", ""
 	}
 	return runReplayTemplate(e, dir, base, g, pack)
